@@ -11,6 +11,7 @@ import (
 	"errors"
 	"fmt"
 	"io"
+	"os"
 	"runtime"
 	"strings"
 	"sync"
@@ -519,4 +520,90 @@ func TestVerifC11Run(t *testing.T) {
 	for i := range res {
 		out.Put(map[string]any{"i": i, "obs": res[i]})
 	}
+}
+
+/* ---- process stop protocol (Process.tla): real runCommand against peers that do not cooperate ---- */
+
+type c11ProcObs struct {
+	Kind     string  `json:"kind"`
+	Result   string  `json:"result"`
+	Seconds  float64 `json:"seconds"`
+	Fired    []int   `json:"fired"`
+	Stable   bool    `json:"stable"`
+	SecondUs int64   `json:"second_result_us"`
+	StartErr string  `json:"start_err,omitempty"`
+	Hang     bool    `json:"hang,omitempty"`
+}
+
+func TestVerifC11Process(t *testing.T) {
+	out, err := verifutil.NewOut(verifutil.Env("VERIF_OUT", "proc.ndjson"))
+	if err != nil {
+		t.Fatal(err)
+	}
+	defer out.Close()
+	kinds := strings.Split(verifutil.Env("VERIF_KINDS", "polite,selfexit"), ",")
+	var wg sync.WaitGroup
+	for _, kind := range kinds {
+		wg.Add(1)
+		go func(kind string) {
+			defer wg.Done()
+			obs := c11ProcObs{Kind: kind, Fired: []int{0, 0}}
+			start := runCommand([]string{os.Args[0], "verif-helper", "proc", kind, "-"})
+			proc, err := start(context.Background(), false)
+			if err != nil {
+				obs.StartErr = err.Error()
+				out.Put(obs)
+				return
+			}
+			var mu sync.Mutex
+			for i := 0; i < 2; i++ {
+				i := i
+				proc.whenDone(func(error) { mu.Lock(); obs.Fired[i]++; mu.Unlock() })
+			}
+			// as runTestCasesForServer does right after writing the request: close the peer's stdin
+			// (otherwise the exec layer's stdin copier keeps cmd.Wait from returning)
+			_ = proc.stdin.Close()
+			time.Sleep(300 * time.Millisecond) // let the child install its signal handling
+			t0 := time.Now()
+			if kind != "selfexit" {
+				proc.abort()
+				proc.abort() // idempotent
+			}
+			resCh := make(chan error, 1)
+			go func() { resCh <- proc.result() }()
+			var res error
+			select {
+			case res = <-resCh:
+			case <-time.After(25 * time.Second):
+				obs.Hang = true
+				out.Put(obs)
+				return
+			}
+			obs.Seconds = time.Since(t0).Seconds()
+			obs.Result = "exited"
+			if res != nil && strings.Contains(res.Error(), "took too long") {
+				obs.Result = "took-too-long"
+			}
+			t1 := time.Now()
+			res2 := proc.result()
+			obs.SecondUs = time.Since(t1).Microseconds()
+			obs.Stable = (res == nil) == (res2 == nil) && (res == nil || res.Error() == res2.Error())
+			// callbacks run in their own goroutines after done: wait for them (bounded)
+			deadline := time.Now().Add(5 * time.Second)
+			for time.Now().Before(deadline) {
+				mu.Lock()
+				ok := obs.Fired[0] >= 1 && obs.Fired[1] >= 1
+				mu.Unlock()
+				if ok {
+					break
+				}
+				time.Sleep(5 * time.Millisecond)
+			}
+			time.Sleep(50 * time.Millisecond) // a second firing would show up now
+			mu.Lock()
+			out.Put(obs)
+			mu.Unlock()
+		}(kind)
+	}
+	wg.Wait()
 }
